@@ -79,6 +79,41 @@ Section Defs.
   Definition soap_basis_exists (Qs : list lmat) : bool :=
     match Qs with Q0 :: _ => any_nonzero Op Q0 | [] => false end.
 
+  (* ---------------------------------------------------------------- 2. predicates on d x d list matrices *)
+  Definition delta (i j : nat) : F := if Nat.eqb i j then f1 Op else zero.
+  (* Q Q^T = I *)
+  Definition rows_orthonormal (d : nat) (Q : lmat) : Prop :=
+    forall i j, i < d -> j < d -> sumn Op d (fun k => fmul Op (mnth Q i k) (mnth Q j k)) = delta i j.
+  (* Q^T Q = I *)
+  Definition cols_orthonormal (d : nat) (Q : lmat) : Prop :=
+    forall i j, i < d -> j < d -> sumn Op d (fun k => fmul Op (mnth Q k i) (mnth Q k j)) = delta i j.
+  Definition orthonormal (d : nat) (Q : lmat) : Prop :=
+    length Q = d /\ rows_orthonormal d Q /\ cols_orthonormal d Q.
+  (* Q^T A Q is diagonal: every off-diagonal entry sum_k sum_l Q[k][i] A[k][l] Q[l][j] vanishes *)
+  Definition diagonalises (d : nat) (A Q : lmat) : Prop :=
+    forall i j, i < d -> j < d -> i <> j ->
+    sumn Op d (fun k => sumn Op d (fun l => fmul Op (fmul Op (mnth Q k i) (mnth A k l)) (mnth Q l j))) = zero.
+  (* M M' = I on the d x d entries *)
+  Definition inverse_pair (d : nat) (M M' : lmat) : Prop :=
+    forall k j, k < d -> j < d -> sumn Op d (fun i => fmul Op (mnth M k i) (mnth M' i j)) = delta k j.
+
+  (* mode by mode: the second list of matrices undoes the first (ignored modes are ignored in both) *)
+  Fixpoint back_pair (ds : list nat) (Ms Ms' : list (option lmat)) : Prop :=
+    match ds, Ms, Ms' with
+    | [], [], [] => True
+    | d :: ds', Some M :: r, Some M' :: r' => inverse_pair d M M' /\ back_pair ds' r r'
+    | d :: ds', None :: r, None :: r' => back_pair ds' r r'
+    | _, _, _ => False
+    end.
+
+  (* every matrix of the list (one per selected mode) has orthonormal rows / columns of the mode's size *)
+  Fixpoint all_fit (P : nat -> lmat -> Prop) (sel : list bool) (dims : list nat) (mats : list lmat) : Prop :=
+    match sel, dims with
+    | true :: s, d :: ds => match mats with M :: ms => P d M /\ all_fit P s ds ms | [] => True end
+    | false :: s, d :: ds => all_fit P s ds mats
+    | _, _ => True
+    end.
+
   (* ---------------------------------------------------------------- 3. oracle view of a refresh *)
   (* the answers a function [eigvecs A estimate is_diagonal] gives to the queries of one SOAP refresh *)
   Fixpoint oracle_answers (eigvecs : lmat -> lmat -> bool -> lmat) (fs invs : list lmat) (dg : list bool) : list lmat :=
